@@ -23,11 +23,18 @@ def run_case(st, exe_dir):
         os.remove(os.path.join(exe_dir, f))
     p0 = moves.make_path(old0, exe_dir, name="old0.lat")
     p1 = moves.make_path(old1, exe_dir, name="old1.lat")
-    rg = moves.ScriptedRgen(integers=[], randoms=[])
+    wfplus = bool(_CONST.get("WfPlus"))
+    if res.get("empty"):
+        return None                  # no drawn number above a ratio >= 1 exists
+    u = []
+    if wfplus and res["geometric"]:
+        ratio = 1.0 if res["wold"] == 0 else res["wnew"] / res["wold"]
+        u = [min(ratio, 1.0) * (1 - 1e-9) if st["xi"] == "below" else ratio * (1 + 1e-9) + 1e-12]
+    rg = moves.ScriptedRgen(integers=[], randoms=u)
     eng = moves.engine(exe_dir, left_wall=wall)
     eng.script_calls = [list(st["back"]), list(st["forw"])]
     es0 = moves.ens_set(float("-inf"), R0 - 0.5, R0 - 0.5, st["maxlength"], rg, start_cond="R", name="000")
-    es1 = moves.ens_set(R0 - 0.5, R0 - 0.5, RR - 0.5, st["maxlength"], rg, start_cond="L", name="001")
+    es1 = moves.ens_set(R0 - 0.5, R0 - 0.5, RR - 0.5, st["maxlength"], rg, start_cond="L", name="001", move="wf" if wfplus else "sh")
     b0, b1 = moves.snapshot(p0), moves.snapshot(p1)
     picked = {-1: {"ens": es0, "traj": p0}, 0: {"ens": es1, "traj": p1}}
     try:
@@ -42,10 +49,15 @@ def run_case(st, exe_dir):
     want = res["verdict"]
     what = (f"old [0-] {old0}, old [0+] {old1}, backward steps {list(st['back'])}, forward steps {list(st['forw'])}, maxlength {st['maxlength']}: "
             f"the specification's new paths are {list(res['new0'])} / {list(res['new1'])}")
+    if wfplus:
+        what += f"; high-acceptance weights of the old / new [0+] path {res['wold']} / {res['wnew']}, drawn number {u[0] if u else None}"
+    tag = "swap:ha" if wfplus and res["geometric"] else "swap:rule"
     if want == "accept" and not acc:
-        fails.append(("swap:rule:rejects", f"{what}; the code rejected with {status}, the property accepts"))
+        fails.append((f"{tag}:rejects", f"{what}; the code rejected with {status}, the property accepts"))
     if want == "reject" and acc:
-        fails.append(("swap:rule:accepts", f"{what}; the code accepted, the property rejects"))
+        fails.append((f"{tag}:accepts", f"{what}; the code accepted, the property rejects"))
+    if wfplus and res["geometric"] and rg._rands:
+        fails.append(("swap:ha:no-draw", f"{what}; the swap did not draw its acceptance number from the move stream"))
     if acc:
         g0, g1 = moves.positions(news[0]), moves.positions(news[1])
         if g0 != list(res["new0"]) or g1 != list(res["new1"]):
@@ -72,7 +84,11 @@ def _job(chunk):
                 continue
             n += 1
             nacc += st["res"]["verdict"] == "accept"
-            fails = run_case(st, work) or []
+            fails = run_case(st, work)
+            if fails is None:
+                n -= 1
+                nacc -= st["res"]["verdict"] == "accept"
+                continue
             if sample is None and st["res"]["verdict"] == "accept":
                 sample = {k: (list(v) if isinstance(v, (list, tuple)) else v) for k, v in st.items() if k in ("old0", "old1", "back", "forw", "maxlength")}
                 sample["new0"], sample["new1"] = list(st["res"]["new0"]), list(st["res"]["new1"])
@@ -84,12 +100,22 @@ def _job(chunk):
 
 
 def run(chk, pid, tier, work):
+    for wfplus in (False, True):
+        sub = os.path.join(work, f"wf{int(wfplus)}")
+        os.makedirs(sub)
+        _run_variant(chk, pid, tier, sub, wfplus)
+
+
+def _run_variant(chk, pid, tier, work, wfplus):
     global _RAW
     q = tier == "quick"
     for mod in ("ZeroSwap.tla", "LatticeOps.tla"):
         os.symlink(os.path.join(tlc.SPEC_DIR, mod), os.path.join(work, mod))
+    _CONST.pop("WfPlus", None)
     consts = dict(_CONST) if q else dict(_CONST, MaxOld=6)
+    consts["WfPlus"] = "TRUE" if wfplus else "FALSE"
     _CONST.update(consts)
+    _CONST["WfPlus"] = wfplus
     mls = "{4, 6, 30}" if q else "{4, 5, 6, 7, 30}"
     with open(os.path.join(work, "MC_ZeroSwap.tla"), "w") as fh:
         fh.write(f"---- MODULE MC_ZeroSwap ----\nEXTENDS ZeroSwap\nMLs == {mls}\nWallDef == {consts['Wall']}\n====\n")
@@ -102,6 +128,7 @@ def run(chk, pid, tier, work):
     chk.add_tlc(res, dict(consts, MaxLengths=mls))
     if not res["ok"]:
         chk.machinery(f"TLC refuted {res['violated']} on ZeroSwap.tla")
+    consts = dict(consts, WfPlus=wfplus)
     _RAW, _i, _e = tlc.read_dot(dot, parse=False)
     os.remove(dot)
     results = common.pmap(_job, common.chunks(sorted(_RAW), 64))
@@ -122,14 +149,19 @@ def run(chk, pid, tier, work):
         chk.nontrivial(("zeroswap", i))
     if nacc < 10:
         chk.machinery(f"only {nacc} of {ncases} enumerated swaps are accepted by the specification: the content clauses would be vacuous")
-    print(f"  ZeroSwap: {res['distinct']} states, {ncases} swap attempts executed on the real retis_swap_zero ({nacc} accepted by the specification)", flush=True)
+    print(f"  ZeroSwap ({'wire fencing in [0+]: high-acceptance step' if wfplus else 'shooting in [0+]'}): {res['distinct']} states, {ncases} swap attempts "
+          f"executed on the real retis_swap_zero ({nacc} accepted by the specification)", flush=True)
 
 
 def replay_case(rp, work):
     """Re-run one recorded case: TLC recomputes the demanded result for exactly this attempt."""
     global _RAW
     case = rp["case"]
-    consts = rp["constants"]
+    consts = dict(rp["constants"])
+    wfplus = bool(consts.get("WfPlus")) and consts.get("WfPlus") != "FALSE"
+    consts["WfPlus"] = "TRUE" if wfplus else "FALSE"
+    _CONST.update(consts)
+    _CONST["WfPlus"] = wfplus
     for mod in ("ZeroSwap.tla", "LatticeOps.tla"):
         os.symlink(os.path.join(tlc.SPEC_DIR, mod), os.path.join(work, mod))
 
@@ -139,7 +171,7 @@ def replay_case(rp, work):
         fh.write("---- MODULE MC_ZeroSwap ----\nEXTENDS ZeroSwap\n"
                  f"MLs == {{{case['maxlength']}}}\nWallDef == {consts['Wall']}\n"
                  f"OneInit == old0 = {seq(case['old0'])} /\\ old1 = {seq(case['old1'])} /\\ back = {seq(case['back'])} /\\ forw = {seq(case['forw'])}"
-                 f" /\\ maxlength = {case['maxlength']} /\\ done = FALSE /\\ res = <<>>\nOneSpec == OneInit /\\ [][Next]_vars\n====\n")
+                 f" /\\ maxlength = {case['maxlength']} /\\ xi = \"{case.get('xi', 'below')}\" /\\ done = FALSE /\\ res = <<>>\nOneSpec == OneInit /\\ [][Next]_vars\n====\n")
     cfg = os.path.join(work, "ZeroSwap.cfg")
     with open(cfg, "w") as fh:
         fh.write("SPECIFICATION OneSpec\nCONSTANTS\n" + "".join(f"  {k} = {v}\n" for k, v in consts.items() if k != "Wall")
